@@ -26,14 +26,15 @@ def gen_cases(spec, P, rng, n_dirs, thorough, wellformed=False):
         desc = []
         max_size = 200 * 1024 if thorough and d % 50 == 0 else (8192 if d % 10 else 70000)
         for p in chosen:
-            size = rng.choice([0, 1, 2, 255, 256, 1000, rng.randint(0, max_size)])
+            # sizes around the BER length boundaries of the three nested TLV lengths of a data answer (payload, +11, +13)
+            size = rng.choice([0, 1, 2, 255, 256, 1000, rng.randint(0, max_size), rng.randint(110, 132), rng.randint(238, 260)])
             seed = rng.randrange(1000)
             files[table[p]] = content(size, seed)
             desc.append(f"{p}:{size}:{seed}")
         for u in rng.sample(unrelated, rng.randint(0, 2)):
             desc.append(f"{u}:{rng.randint(0, 50)}:{rng.randrange(100)}")
         rng.shuffle(desc)
-        block = rng.choice([1, 7, 100, 1024, 32768, rng.randint(1, 32768)])
+        block = rng.choice([1, 7, 100, 1024, 32768, rng.randint(1, 32768), rng.randint(110, 132), rng.randint(238, 260)])
         password = rng.choice([0, 123456, 999999])
         # request script
         items = [ack]
@@ -138,7 +139,7 @@ def run(ctx, out):
             i = next((j for j in range(min(len(r), len(w))) if r[j] != w[j]), min(len(r), len(w)))
             out.oracle_failures.append({"op": o[:400], "observed": "…" + r[max(0, i - 60):i + 200], "expected": "…" + w[max(0, i - 60):i + 200], "key": o[:200],
                                         "what": "firmware upload: announced list is not exactly the recognised files with their sizes / a data request is not answered with that id, offset and the file's bytes / a bad request does not end the upload with an error"})
-    out.rule = (f"{n_dirs} payload directories (any subset of the {len(paths)} recognised paths plus unrelated files, sizes 0..70000 (thorough: 200 KiB), deterministic content) x block sizes {{1,7,100,1024,32768,random}} x request scripts "
+    out.rule = (f"{n_dirs} payload directories (any subset of the {len(paths)} recognised paths plus unrelated files, sizes 0..70000 (thorough: 200 KiB), deterministic content) x block sizes {{1,7,100,1024,32768,random, 110..132, 238..260 (BER length boundaries of the nested containers)}} x request scripts "
                 "(0..6 requests: valid at offsets 0/1/size-1/size/size+1/beyond/random/block-aligned, repeated and overlapping, unknown id, missing id / offset / file / TLV) ending in completion, abort or end of connection. "
                 "The real WriteFile::into_stream against the scripted terminal; expected announcement and WriteData packets assembled by the reference encoder from the files' bytes. implementation = model = expectation")
     out.samples = [ops[1][:300], {"op": ops[-1][:200], "impl": impl[-1][:300]}]
